@@ -134,32 +134,7 @@ Definition ta_code (t : talign) : Z := match t with TAStart => 0 | TACenter => 1
 Definition view_region (r : region) : region_view :=
   mkRV (wm_code (r_wm r)) (r_ox r) (r_oy r) (r_ew r) (r_eh r) (da_code (r_da r)) (ta_code (r_ta r)).
 
-(* ---- triggers of the recorded findings, on the grammar derivation *)
-Definition is_some {A} (o : option A) : bool := match o with Some _ => true | None => false end.
-(* 1 region-not-clamped: a position or size setting is present *)
-Definition trig_clamp (l : list setting) : bool := is_some (get_position l) || is_some (get_size l).
-(* 2 line-number-nonpositive: line number <= 0 (sign error) *)
-Definition trig_line (l : list setting) : bool :=
-  match get_line l with Some (LineNum n, _) => n <=? 0 | _ => false end.
-(* 3 vertical-line-center: vertical cue with line alignment center *)
-Definition trig_vcenter (l : list setting) : bool :=
-  is_some (get_vertical l) && match get_line l with Some (_, Some LaCenter) => true | _ => false end.
-
-Fixpoint count_ts (n : cnode) : Z :=
-  let fix go (l : list cnode) : Z := match l with [] => 0 | x :: l' => count_ts x + go l' end in
-  match n with
-  | CTs _ => 1
-  | CTag _ cs => go cs
-  | CRuby segs => (fix gs (sg : list (list cnode * list cnode)) : Z :=
-                     match sg with [] => 0 | (b, t) :: sg' => go b + go t + gs sg' end) segs
-  | _ => 0
-  end.
-Fixpoint sum_z (l : list Z) : Z := match l with [] => 0 | x :: l' => x + sum_z l' end.
-Definition count_ts_list (l : list cnode) : Z := sum_z (map count_ts l).
-Definition ts_inside (n : cnode) : bool := match n with CTs _ => false | _ => 0 <? count_ts n end.
-(* 5 timestamp-nesting: a timestamp inside a tag, or a second timestamp in the cue *)
-Definition trig_ts (l : list cnode) : bool := existsb ts_inside l || (2 <=? count_ts_list l).
-
+(* ---- trigger of the one recorded finding, on the grammar derivation *)
 Fixpoint any_node (p : cnode -> bool) (n : cnode) : bool :=
   let fix go (l : list cnode) : bool := match l with [] => false | x :: l' => any_node p x || go l' end in
   p n ||
@@ -169,15 +144,8 @@ Fixpoint any_node (p : cnode -> bool) (n : cnode) : bool :=
                      match sg with [] => false | (b, t) :: sg' => go b || go t || gs sg' end) segs
   | _ => false
   end.
-(* 4 annotation-charref: `&` in a voice or language annotation *)
-Definition trig_annot (l : list cnode) : bool :=
-  existsb (any_node (fun n => match n with CTag (TgV a) _ | CTag (TgLang a) _ => mem_z 38 a | _ => false end)) l.
-(* 6 charref-without-semicolon-table: a named reference other than amp, lt, gt, nbsp *)
-Definition legacy_ok (n : text) : bool :=
-  text_eqb n [97;109;112] || text_eqb n [108;116] || text_eqb n [103;116] || text_eqb n [110;98;115;112].
-Definition trig_charref (l : list cnode) : bool :=
-  existsb (any_node (fun n => match n with CRef (RefNamed nm) => negb (legacy_ok nm) | _ => false end)) l.
-(* 7 ruby-structure: ruby inside another tag; a base that is not one line of plain text; a line break in rt *)
+(* 7 ruby-structure: ruby inside another tag; a base that is not one line of plain text (markup, a timestamp, a line
+   break); a line break or a ruby in rt *)
 Definition plain_line (n : cnode) : bool :=
   match n with CText t => negb (mem_z 10 t) | CRef _ => true | _ => false end.
 Definition has_lf (n : cnode) : bool := match n with CText t => mem_z 10 t | _ => false end.
@@ -193,10 +161,7 @@ Definition ruby_bad (n : cnode) : bool :=
   end.
 Definition trig_ruby (l : list cnode) : bool := existsb (any_node ruby_bad) l.
 
-Definition text_finding (l : list cnode) : Z :=
-  if trig_ruby l then 7 else if trig_annot l then 4 else if trig_ts l then 5 else if trig_charref l then 6 else 0.
-Definition region_finding (l : list setting) : Z :=
-  if trig_vcenter l then 3 else if trig_line l then 2 else if trig_clamp l then 1 else 0.
+Definition text_finding (l : list cnode) : Z := if trig_ruby l then 7 else 0.
 
 (* ---- clauses.  Codes: 1 printer/text mismatch (harness), 2 exception, 3 cue count, 10 begin/end,
    20 region inside the root container, 21 writing mode / text alignment / display alignment, 22 edge fixed by the
@@ -215,11 +180,10 @@ Fixpoint judge_cues (k : Z) (rs : list region) (cs : list cue) (ps : list para) 
        (match nth_error rs (Z.to_nat (pa_region p)) with
         | Some r =>
           let v := view_region r in
-          (* containment: excused by the geometry findings; mode and alignments: by none; the edge fixed by the line
-             setting: only by line-number-nonpositive *)
-          (if region_inside v then [] else [(20, region_finding (c_settings c))]) ++
+          (* containment, mode and alignments, the edge fixed by the line setting: no recorded finding excuses them *)
+          (if region_inside v then [] else [(20, 0)]) ++
           (if region_align_ok (c_settings c) v then [] else [(21, 0)]) ++
-          (if line_edge_ok (c_settings c) v then [] else [(22, if trig_line (c_settings c) then 2 else 0)])
+          (if line_edge_ok (c_settings c) v then [] else [(22, 0)])
         | None => [(20, 0)]
         end) ++
        (if runs_eq (view_para p) (expected_runs c) then [] else [(30, text_finding (c_payload c))])) ++
@@ -239,15 +203,9 @@ Fixpoint sharing (cs : list cue) (ps : list para) : bool :=
   end.
 
 (* an exception aborts the whole file; it is excused only if some cue of the file carries a construct on which
-   a recorded finding makes the parser raise: bad ruby structure (7); `&` in an annotation, after which the
-   end tag leaves the paragraph (4); a timestamp span that then receives a ruby (5) *)
-Definition has_ruby (l : list cnode) : bool :=
-  existsb (any_node (fun x => match x with CRuby _ => true | _ => false end)) l.
+   the recorded finding makes the parser raise: bad ruby structure (7) *)
 Definition exc_finding (cs : list cue) : Z :=
-  if existsb (fun c => trig_ruby (c_payload c)) cs then 7
-  else if existsb (fun c => trig_annot (c_payload c)) cs then 4
-  else if existsb (fun c => (0 <? count_ts_list (c_payload c)) && has_ruby (c_payload c)) cs then 5
-  else 0.
+  if existsb (fun c => trig_ruby (c_payload c)) cs then 7 else 0.
 
 Definition judge (f : vfile) (txt : text) (o : outcome) : list (Z * Z) :=
   if negb (text_eqb (print_file f) txt) then [(1, 0)] else
